@@ -752,3 +752,317 @@ theorem run_consistent (ops : List Op) (l l' : Loader)
       exact ih l1 (step_consistent l l1 op hc hw.1 h1) (hw.2 l1 h1) h
 
 end Capella.Index
+
+namespace Capella.Index
+
+/-! ### C04: freshness, duplicate detection, creation bracket -/
+
+theorem mem_allIds (l : Loader) (k : String) (h : k ∈ allIds l) :
+    ∃ f ∈ l, ∃ e ∈ f.tree, k ∈ e.ids := by
+  simp only [allIds, scanIds, List.mem_flatMap] at h
+  obtain ⟨f, hf, e, he, hk⟩ := h
+  exact ⟨f, hf, e, he, hk⟩
+
+theorem lookup_of_mem_allIds (l : Loader) (k : String)
+    (hc : ∀ f ∈ l, IdConsistent f) (hu : (allIds l).Nodup) (h : k ∈ allIds l) :
+    ∃ n, lookup l k = .ok n := by
+  obtain ⟨f, hf, e, he, hk⟩ := mem_allIds l k h
+  exact ⟨e.nid, lookup_complete l k hc hu f hf e he hk⟩
+
+theorem lookup_err_not_mem (l : Loader) (k : String) (e : Err)
+    (hc : ∀ f ∈ l, IdConsistent f) (hu : (allIds l).Nodup) (h : lookup l k = .error e) :
+    k ∉ allIds l := by
+  intro hm
+  obtain ⟨n, hn⟩ := lookup_of_mem_allIds l k hc hu hm
+  rw [hn] at h
+  cases h
+
+theorem generateUuid_random (l l' : Loader) (fi : Nat) (cands : List String) (k : String)
+    (hc : ∀ f ∈ l, IdConsistent f) (hu : (allIds l).Nodup)
+    (h : generateUuid l fi none cands = .ok (l', k)) :
+    k ∉ allIds l ∧ k ∈ cands ∧ l' = l.modify fi (fun f => idcacheReserve f k) := by
+  unfold generateUuid at h
+  simp only at h
+  split at h
+  · rename_i c hc'
+    simp only [Except.ok.injEq, Prod.mk.injEq] at h
+    obtain ⟨h1, h2⟩ := h
+    subst h2
+    have hmem := List.mem_of_find?_eq_some hc'
+    have hp := List.find?_some hc'
+    refine ⟨?_, hmem, h1.symm⟩
+    split at hp
+    · rename_i e he
+      exact lookup_err_not_mem l c e hc hu he
+    · cases hp
+  · cases h
+
+theorem generateUuid_want_used (l : Loader) (fi : Nat) (cands : List String) (k : String)
+    (hc : ∀ f ∈ l, IdConsistent f) (hu : (allIds l).Nodup) (hk : k ∈ allIds l) :
+    generateUuid l fi (some k) cands = .error .valueError := by
+  obtain ⟨n, hn⟩ := lookup_of_mem_allIds l k hc hu hk
+  simp [generateUuid, hn]
+
+theorem generateUuid_want_free (l : Loader) (fi : Nat) (cands : List String) (k : String)
+    (hc : ∀ f ∈ l, IdConsistent f) (hk : k ∉ allIds l) :
+    generateUuid l fi (some k) cands = .ok (l.modify fi (fun f => idcacheReserve f k), k) := by
+  simp [generateUuid, lookup_absent l k hc hk]
+
+theorem checkDupsFrom_false_iff (l : Loader) (seen : List String) :
+    checkDupsFrom seen l = false ↔
+      (∀ f ∈ l, ∀ k ∈ keysOf f, k ∉ seen) ∧ l.Pairwise (fun f g => ∀ k ∈ keysOf g, k ∉ keysOf f) := by
+  induction l generalizing seen with
+  | nil => simp [checkDupsFrom]
+  | cons f fs ih =>
+    simp only [checkDupsFrom, Bool.or_eq_false_iff, List.any_eq_false, decide_eq_true_eq,
+      List.mem_cons, forall_eq_or_imp, List.pairwise_cons]
+    rw [ih]
+    simp only [keysOf, List.mem_append, not_or]
+    constructor
+    · rintro ⟨h1, h2, h3⟩
+      refine ⟨⟨h1, fun g hg k hk => (h2 g hg k hk).1⟩, fun g hg k hk => (h2 g hg k hk).2, h3⟩
+    · rintro ⟨⟨h1, h2⟩, h3, h4⟩
+      exact ⟨h1, fun g hg k hk => ⟨h2 g hg k hk, h3 g hg k hk⟩, h4⟩
+
+theorem hasCrossDupsOld_false (l : Loader) : hasCrossDupsOld l = false := by
+  simp [hasCrossDupsOld]
+
+/-! duplicate inside one fragment -/
+
+theorem indexIds_err (ign : Bool) (nid : Nat) (ks : List String) (idc : List (String × Option Nat)) (e : Err)
+    (h : indexIds ign nid ks idc = .error e) : e = .corrupt ∧ ign = false := by
+  induction ks generalizing idc with
+  | nil => simp [indexIds] at h
+  | cons a as ih =>
+    unfold indexIds at h
+    split at h
+    · split at h
+      · rename_i hc
+        simp only [Except.error.injEq] at h
+        refine ⟨h.symm, ?_⟩
+        simpa using hc.2
+      · exact ih _ h
+    · exact ih _ h
+
+theorem indexIds_keep (nid : Nat) (ks : List String) (idc idc' : List (String × Option Nat))
+    (h : indexIds false nid ks idc = .ok idc') (k : String) (n : Nat)
+    (hk : dget idc k = some (some n)) : dget idc' k = some (some n) := by
+  induction ks generalizing idc with
+  | nil => simp only [indexIds, Except.ok.injEq] at h; subst h; exact hk
+  | cons a as ih =>
+    unfold indexIds at h
+    have step : ∀ (hne : ¬ (∃ m, dget idc a = some (some m) ∧ m ≠ nid)),
+        indexIds false nid as (dset idc a (some nid)) = .ok idc' → dget idc' k = some (some n) := by
+      intro hne h'
+      apply ih _ h'
+      rw [dget_dset]
+      by_cases hka : k = a
+      · subst hka
+        simp only [if_true]
+        have : n = nid := by
+          apply Classical.byContradiction
+          intro hnn
+          exact hne ⟨n, hk, hnn⟩
+        rw [this]
+      · simp [hka, hk]
+    split at h
+    · rename_i m hm
+      split at h
+      · cases h
+      · rename_i hc
+        apply step _ h
+        rintro ⟨m', hm', hne'⟩
+        rw [hm] at hm'
+        simp only [Option.some.injEq] at hm'
+        subst hm'
+        apply hc
+        simp [hne']
+    · rename_i hno
+      apply step _ h
+      rintro ⟨m', hm', _⟩
+      exact hno m' hm'
+
+theorem indexEntry_keep (f f' : Frag) (e : Entry) (hign : f.ignDups = false)
+    (h : indexEntry f e = .ok f') (k : String) (n : Nat) (hk : fragGet f k = some n) :
+    fragGet f' k = some n := by
+  unfold indexEntry at h
+  simp only [bind, Except.bind, pure, Except.pure] at h
+  split at h
+  · cases h
+  · rename_i idc' hidc
+    simp only [Except.ok.injEq] at h
+    subst h
+    rw [hign] at hidc
+    have hk' : dget f.idc k = some (some n) := by
+      simp only [fragGet] at hk
+      cases hd : dget f.idc k with
+      | none => rw [hd] at hk; simp at hk
+      | some v =>
+        rw [hd] at hk
+        cases v with
+        | none => simp at hk
+        | some m => simp at hk; rw [hk]
+    simp only [fragGet, indexIds_keep _ _ _ _ hidc k n hk', Option.join_some]
+
+theorem idcacheIndex_keep (seg : List Entry) (f f' : Frag) (hign : f.ignDups = false)
+    (h : idcacheIndex f seg = .ok f') (k : String) (n : Nat) (hk : fragGet f k = some n) :
+    fragGet f' k = some n := by
+  induction seg generalizing f with
+  | nil => simp only [idcacheIndex, Except.ok.injEq] at h; subst h; exact hk
+  | cons e es ih =>
+    simp only [idcacheIndex, bind, Except.bind] at h
+    split at h
+    · cases h
+    · rename_i f1 h1
+      have hign1 : f1.ignDups = false := by
+        rw [(indexEntry_spec f f1 e h1).2.1]; exact hign
+      exact ih f1 hign1 h (indexEntry_keep f f1 e hign h1 k n hk)
+
+/-- after a successful strict indexing every element of the segment is what its ids resolve to -/
+theorem idcacheIndex_strict (seg : List Entry) (f f' : Frag) (hign : f.ignDups = false)
+    (h : idcacheIndex f seg = .ok f') : ∀ e ∈ seg, ∀ k ∈ e.ids, fragGet f' k = some e.nid := by
+  induction seg generalizing f with
+  | nil => intro e he; simp at he
+  | cons a as ih =>
+    simp only [idcacheIndex, bind, Except.bind] at h
+    split at h
+    · cases h
+    · rename_i f1 h1
+      have hs := indexEntry_spec f f1 a h1
+      have hign1 : f1.ignDups = false := by rw [hs.2.1]; exact hign
+      intro e he k hk
+      rcases List.mem_cons.mp he with rfl | he'
+      · apply idcacheIndex_keep as f1 f' hign1 h k e.nid
+        rw [hs.2.2.2.2.1 k]
+        simp [hk]
+      · exact ih f1 hign1 h e he' k hk
+
+theorem idcacheIndex_err (seg : List Entry) (f : Frag) (e : Err)
+    (h : idcacheIndex f seg = .error e) : e = .corrupt := by
+  induction seg generalizing f with
+  | nil => simp [idcacheIndex] at h
+  | cons a as ih =>
+    simp only [idcacheIndex, bind, Except.bind] at h
+    split at h
+    · rename_i err h1
+      simp only [Except.error.injEq] at h
+      subst h
+      unfold indexEntry at h1
+      simp only [bind, Except.bind, pure, Except.pure] at h1
+      split at h1
+      · rename_i err' hidc
+        simp only [Except.error.injEq] at h1
+        subst h1
+        exact (indexIds_err _ _ _ _ _ hidc).1
+      · cases h1
+    · rename_i f1 _
+      exact ih f1 h
+
+/-- a fragment whose tree carries one id on two different elements is refused (strict mode) -/
+theorem rebuild_refuses_dups (f : Frag) (hign : f.ignDups = false)
+    (e1 e2 : Entry) (h1 : e1 ∈ f.tree) (h2 : e2 ∈ f.tree) (k : String)
+    (hk1 : k ∈ e1.ids) (hk2 : k ∈ e2.ids) (hne : e1.nid ≠ e2.nid) :
+    idcacheRebuild f = .error .corrupt := by
+  cases h : idcacheRebuild f with
+  | error e =>
+    unfold idcacheRebuild at h
+    rw [idcacheIndex_err _ _ _ h]
+  | ok f' =>
+    unfold idcacheRebuild at h
+    have hs := idcacheIndex_strict f.tree _ f' (by simpa using hign) h
+    have a := hs e1 h1 k hk1
+    have b := hs e2 h2 k hk2
+    rw [a] at b
+    simp only [Option.some.injEq] at b
+    exact absurd b hne
+
+/-! creation bracket -/
+
+theorem filter_insert_fresh (t seg : List Entry) (pos : Nat)
+    (hfresh : ∀ e ∈ t, ∀ s ∈ seg, s.nid ≠ e.nid) :
+    (t.take pos ++ seg ++ t.drop pos).filter (fun e => !(seg.any (·.nid == e.nid))) = t := by
+  have hkeep : ∀ (u : List Entry), (∀ e ∈ u, e ∈ t) →
+      u.filter (fun e => !(seg.any (·.nid == e.nid))) = u := by
+    intro u hu
+    rw [List.filter_eq_self]
+    intro e he
+    simp only [Bool.not_eq_true', List.any_eq_false, beq_iff_eq]
+    intro s hs
+    exact hfresh e (hu e he) s hs
+  have hdrop : seg.filter (fun e => !(seg.any (·.nid == e.nid))) = [] := by
+    rw [List.filter_eq_nil_iff]
+    intro e he
+    have : seg.any (·.nid == e.nid) = true := by
+      simp only [List.any_eq_true, beq_iff_eq]
+      exact ⟨e, he, rfl⟩
+    simp [this]
+  rw [List.filter_append, List.filter_append, hdrop,
+    hkeep _ (fun e he => List.mem_of_mem_take he), hkeep _ (fun e he => List.mem_of_mem_drop he)]
+  simp
+
+theorem createFailing_atomic (f f' : Frag) (pos : Nat) (uuid : String) (outer : Entry) (nested : List Entry)
+    (hc : Consistent f)
+    (hfreshIds : ∀ k ∈ scanIds (outer :: nested), k ∉ scanIds f.tree)
+    (hfreshNids : ∀ e ∈ f.tree, ∀ s ∈ outer :: nested, s.nid ≠ e.nid)
+    (hfree : fragGet f uuid = none)
+    (h : createFailing f pos uuid outer nested = .ok f') :
+    f'.tree = f.tree ∧ (∀ k, fragGet f' k = fragGet f k) ∧ (∀ x n, (x, n) ∈ f'.xtc ↔ (x, n) ∈ f.xtc) := by
+  unfold createFailing at h
+  simp only [bind, Except.bind, pure, Except.pure] at h
+  split at h
+  · cases h
+  · rename_i f3 h3
+    split at h
+    · cases h
+    · rename_i f4 h4
+      simp only [Except.ok.injEq] at h
+      subst h
+      obtain ⟨t3, _, _, _, g3, x3⟩ := idcacheIndex_spec _ _ _ h3
+      obtain ⟨t4, _, _, _, g4, x4⟩ := idcacheRemove_spec _ _ _ h4
+      have ht3 : f3.tree = f.tree.take pos ++ (outer :: nested) ++ f.tree.drop pos := by
+        rw [t3]; rfl
+      refine ⟨?_, ?_, ?_⟩
+      · show (f4.tree.filter _) = f.tree
+        rw [t4, ht3]
+        exact filter_insert_fresh f.tree (outer :: nested) pos hfreshNids
+      · intro k
+        show (dget (ddel f4.idc uuid) k).join = fragGet f k
+        rw [dget_ddel]
+        by_cases hku : k = uuid
+        · subst hku; simp [hfree]
+        · simp only [hku, if_false]
+          have e4 : (dget f4.idc k).join = fragGet f4 k := rfl
+          rw [e4, g4 k]
+          by_cases hks : k ∈ scanIds (outer :: nested)
+          · simp only [hks, if_true]
+            have := hfreshIds k hks
+            rw [hc.1 k]
+            exact ((scanLookup_none_iff _ _).mpr this).symm
+          · simp only [hks, if_false]
+            rw [g3 k]
+            have hkn : scanLookup nested k = none := by
+              rw [scanLookup_none_iff]
+              intro hm
+              apply hks
+              simp only [scanIds, List.flatMap_cons, List.mem_append] at hm ⊢
+              exact Or.inr hm
+            simp only [fragGetAfter, hkn]
+            show (dget (dset f.idc uuid none) k).join = fragGet f k
+            rw [dget_dset]
+            simp [hku, fragGet]
+      · intro x n
+        show (x, n) ∈ f4.xtc ↔ (x, n) ∈ f.xtc
+        rw [x4 x n, x3 x n]
+        have hbase : (x, n) ∈ (insertSeg (idcacheReserve f uuid) pos (outer :: nested)).xtc ↔ (x, n) ∈ f.xtc := Iff.rfl
+        rw [hbase]
+        constructor
+        · rintro ⟨h1 | ⟨e, he, hx, hn⟩, hno⟩
+          · exact h1
+          · exact absurd ⟨e, List.mem_cons_of_mem _ he, hx, hn⟩ hno
+        · intro h1
+          refine ⟨Or.inl h1, ?_⟩
+          rintro ⟨s, hs, _, hsn⟩
+          obtain ⟨e, he, _, hen⟩ := (hc.2 x n).mp h1
+          exact hfreshNids e he s hs (hsn.trans hen.symm)
+
+end Capella.Index
